@@ -148,9 +148,15 @@ class Obj:
 
     # -- Python's data model, for the places where a record meets native code (dictionary keys, tuple comparison, list.index, sorted,
     #    truth tests): the repository's own dunder methods decide, with Python's defaults when the class defines none
+    def _astuple(self):
+        return tuple(self.fields[k_] for k_ in self.ntfields)
+
     def __eq__(self, other):
         if '__eq__' in self.methods:
             return self.call('__eq__', other)
+        if getattr(self, 'ntfields', None):
+            o_ = other._astuple() if isinstance(other, Obj) and getattr(other, 'ntfields', None) else other
+            return self._astuple() == o_ if isinstance(o_, tuple) else NotImplemented
         return NotImplemented
 
     def __ne__(self, other):
@@ -166,11 +172,17 @@ class Obj:
             return self.call('__hash__')
         if '__eq__' in self.methods:
             raise TypeError('unhashable type: %r' % (self.clsname or 'record'))
+        if getattr(self, 'ntfields', None):
+            return hash(self._astuple())
         return id(self) >> 4
 
     def _order(self, name, other):
         if name in self.methods:
             return self.call(name, other)
+        if getattr(self, 'ntfields', None):
+            o_ = other._astuple() if isinstance(other, Obj) and getattr(other, 'ntfields', None) else other
+            if isinstance(o_, tuple):
+                return getattr(self._astuple(), name)(o_)
         return NotImplemented
 
     def __lt__(self, other):
@@ -195,6 +207,8 @@ class Obj:
     def __repr__(self):
         if '__repr__' in self.methods:
             return self.call('__repr__')
+        if getattr(self, 'ntfields', None):
+            return '%s(%s)' % (self.clsname, ', '.join('%s=%r' % (k_, self.fields[k_]) for k_ in self.ntfields))
         return '<%s object>' % (self.clsname or 'record')
 
     def __format__(self, spec):
@@ -209,6 +223,8 @@ class Obj:
             return bool(self.call('__bool__'))
         if '__len__' in self.methods:
             return self.call('__len__') != 0
+        if getattr(self, 'ntfields', None) is not None:
+            return len(self.ntfields) != 0
         return True
 
     def call(self, name, *args, _fn=None, _owner=None, _raw=False, **kwargs):
@@ -424,7 +440,9 @@ def _obj_compare(t, l, r):
         return l.call(name, r)
     if t is ast.NotEq and isinstance(l, Obj) and '__eq__' in l.methods:
         return not l.call('__eq__', r)
-    raise Unsupported('record has no %s' % name)
+    # Python's protocol: the reflected method of the other operand, identity for == / !=, TypeError for an ordering nobody defines
+    import operator as _op
+    return {ast.Lt: _op.lt, ast.LtE: _op.le, ast.Gt: _op.gt, ast.GtE: _op.ge, ast.Eq: _op.eq, ast.NotEq: _op.ne}[t](l, r)
 
 
 def _args(n, env, funcs):
@@ -523,6 +541,8 @@ def _truth(v):
 def _iter(v, node=None):
     """the iterator Python's iter() gives for an interpreter value"""
     if isinstance(v, Obj):
+        if getattr(v, 'ntfields', None) and '__iter__' not in v.methods:
+            return iter([v.fields[k_] for k_ in v.ntfields])
         if '__iter__' in v.methods:
             r_ = v.call('__iter__')
             if isinstance(r_, Obj) and '__next__' in r_.methods:
@@ -960,7 +980,7 @@ def builtin_value(name, funcs=None):
 def _lazy_genexp(n, env, funcs):
     """a generator expression: its first iterable is evaluated at once (in the enclosing scope), everything else when items are asked for"""
     first = _iter(ev(n.generators[0].iter, env, funcs), n.generators[0].iter)
-    scope = dict(env)
+    scope = _flat(env)
     scope['__comp_outer__'] = env
 
     def gen(k):
@@ -1163,6 +1183,22 @@ def _match_pattern(p, v, env, funcs, binds):
         if isinstance(v, (Obj, PyStub)) or not isinstance(v, _MATCH_BUILTINS[p.cls.id]):
             return False
         return not p.patterns or _match_pattern(p.patterns[0], v, env, funcs, binds)
+    if isinstance(p, ast.MatchClass) and not p.patterns:
+        # case Track(): / case GeoCoords() | ENUCoords(): / case Point(x=0): - an isinstance test as the interpreter makes it, then the named attributes
+        probe = dict(env)
+        probe['_match_subject_'] = v
+        test = ast.Call(func=ast.Name(id='isinstance', ctx=ast.Load()), args=[ast.Name(id='_match_subject_', ctx=ast.Load()), p.cls], keywords=[])
+        if not ev(test, probe, funcs):
+            return False
+        for attr, q in zip(p.kwd_attrs, p.kwd_patterns):
+            get = ast.Attribute(value=ast.Name(id='_match_subject_', ctx=ast.Load()), attr=attr, ctx=ast.Load())
+            try:
+                av = ev(get, probe, funcs)
+            except AttributeError:
+                return False
+            if not _match_pattern(q, av, env, funcs, binds):
+                return False
+        return True
     raise Unsupported('match pattern %s' % type(p).__name__)
 
 
@@ -1290,6 +1326,8 @@ def ev(n, env, funcs=None):
                 return _BoundMethod(v, n.attr)
             if _demangled(v, n.attr) is not None:
                 return _BoundMethod(v, _demangled(v, n.attr))
+            if getattr(v, 'ntfields', None) and n.attr == '_fields':
+                return tuple(v.ntfields)
             if getattr(v, 'constructed', False) and '__getattr__' not in v.methods and an not in getattr(v, 'classnames', ()) \
                     and n.attr not in getattr(v, 'classnames', ()):
                 raise AttributeError('%r object has no attribute %r' % (v.clsname, n.attr))
@@ -1321,6 +1359,8 @@ def ev(n, env, funcs=None):
             return base.read(idx)
         if isinstance(base, Obj) and '__getitem__' in base.methods:
             return base.call('__getitem__', idx)
+        if isinstance(base, Obj) and getattr(base, 'ntfields', None):
+            return tuple(base.fields[k_] for k_ in base.ntfields)[idx]
         if isinstance(base, PyStub) and _repo_method(base, '__getitem__') is not None:
             return Obj.call(_Bound(base, base.repo_methods, getattr(base, 'repo_funcs', funcs)), '__getitem__', idx)
         if isinstance(base, PyStub) and hasattr(base, '__getitem__'):
@@ -1405,7 +1445,11 @@ def ev(n, env, funcs=None):
                 kw_ = _kw(n, env, funcs)
                 if fname == 'sort' and callable(kw_.get('key')) or fname == 'sort':
                     return _sort_in_place(rv, kw_)
-                return getattr(rv, fname)(*_args(n, env, funcs), **kw_)
+                a_ = _args(n, env, funcs)
+                if fname in _TAKES_ITERABLES:
+                    # a record that is iterable through its class (an iterator class of the repository) handed to a native container method
+                    a_ = [(_iter(x_, n) if isinstance(x_, Obj) and ('__iter__' in x_.methods or '__getitem__' in x_.methods or getattr(x_, 'ntfields', None)) else x_) for x_ in a_]
+                return getattr(rv, fname)(*a_, **kw_)
             if isinstance(rv, PyStub):
                 if _repo_method(rv, fname) is not None or not hasattr(rv, fname):
                     rm = getattr(rv, 'repo_methods', None)
@@ -1416,6 +1460,19 @@ def ev(n, env, funcs=None):
                     raise Unsupported('abstract object has no method %s' % fname)
                 kw = _kw(n, env, funcs)
                 return getattr(rv, fname)(*_args(n, env, funcs), **kw)
+            if isinstance(rv, Obj) and getattr(rv, 'ntfields', None) and fname in ('_replace', '_asdict') and fname not in rv.methods:
+                if fname == '_asdict' and not n.args and not n.keywords:
+                    return {k_: rv.fields[k_] for k_ in rv.ntfields}
+                kw_ = _kw(n, env, funcs)
+                if fname == '_replace' and not n.args:
+                    bad_ = [k_ for k_ in kw_ if k_ not in rv.ntfields]
+                    if bad_:
+                        raise ValueError('Got unexpected field names: %r' % bad_)
+                    from . import absint as _absint
+                    new_ = _absint.shallow_copy(rv)
+                    for k_, v_ in kw_.items():
+                        new_.fields[k_] = v_
+                    return new_
             if isinstance(rv, Obj) and fname not in rv.methods and callable(rv.fields.get(_mangled(fname, env))):
                 # a callable stored in a field (a model function handed to the object)
                 return rv.fields[_mangled(fname, env)](*_args(n, env, funcs), **_kw(n, env, funcs))
@@ -1588,6 +1645,8 @@ def ev(n, env, funcs=None):
             return math.fabs(args[0]) if isinstance(args[0], (int, float)) and not isinstance(args[0], complex) else abs(args[0])
         if fname == 'len' and len(args) == 1 and isinstance(args[0], Obj) and '__len__' in args[0].methods:
             return args[0].call('__len__')
+        if fname == 'len' and len(args) == 1 and isinstance(args[0], Obj) and getattr(args[0], 'ntfields', None):
+            return len(args[0].ntfields)
         if fname == 'len' and len(args) == 1 and (isinstance(args[0], (list, tuple, dict, str, set, frozenset, bytes, range)) or _is_std_container(args[0]) or (isinstance(args[0], PyStub) and hasattr(args[0], '__len__'))):
             return len(args[0])
         if fname == 'range' and isinstance(f, ast.Name) and all(isinstance(a, int) for a in args):
@@ -1674,13 +1733,11 @@ def ev(n, env, funcs=None):
                 return id(args[0])
             if fname == 'hash' and len(args) == 1:
                 a0 = args[0]
-                if isinstance(a0, Obj):
-                    return a0.call('__hash__') if '__hash__' in a0.methods else id(a0)
-                return hash(a0)
+                return hash(a0)                # (records answer through their native __hash__: the repository's, the tuple's, or identity)
             if fname == 'repr' and len(args) == 1:
                 a0 = args[0]
                 if isinstance(a0, Obj):
-                    return a0.call('__repr__') if '__repr__' in a0.methods else '<%s object>' % (sorted(a0.isa)[0] if a0.isa else 'record')
+                    return repr(a0) if ('__repr__' in a0.methods or getattr(a0, 'ntfields', None)) else '<%s object>' % (sorted(a0.isa)[0] if a0.isa else 'record')
                 if isinstance(a0, PyStub):
                     return repr(a0) if type(a0).__repr__ is not object.__repr__ else '<%s object>' % type(a0).__name__
                 return repr(a0)
@@ -1773,6 +1830,14 @@ def ev(n, env, funcs=None):
                     # None == record, 3 == record: Python falls back to the reflected method, then to identity
                     res = r.call('__eq__', l) if '__eq__' in r.methods else (l is r)
                     ok = ok and (bool(res) == (t is ast.Eq))
+                elif isinstance(l, Obj) and t in (ast.Eq, ast.NotEq) and '__eq__' not in l.methods and getattr(l, 'ntfields', None):
+                    ok = ok and (bool(l == r) == (t is ast.Eq))
+                elif isinstance(l, Obj) and getattr(l, 'ntfields', None) and t in (ast.Lt, ast.LtE, ast.Gt, ast.GtE) and \
+                        {ast.Lt: '__lt__', ast.LtE: '__le__', ast.Gt: '__gt__', ast.GtE: '__ge__'}[t] not in l.methods:
+                    res_ = {ast.Lt: l.__lt__, ast.LtE: l.__le__, ast.Gt: l.__gt__, ast.GtE: l.__ge__}[t](r)
+                    if res_ is NotImplemented:
+                        raise TypeError('ordering not supported between a %s and %r' % (l.clsname, type(r).__name__))
+                    ok = ok and bool(res_)
                 elif isinstance(l, Obj) and t in (ast.Eq, ast.NotEq) and '__eq__' not in l.methods:
                     ok = ok and ((l is r) == (t is ast.Eq))
                 else:
@@ -1880,7 +1945,7 @@ def ev(n, env, funcs=None):
         captured = env                                                    # the enclosing scope itself: free names are looked up at call time
 
         def lam(*args, **kwargs):
-            e2 = dict(captured)
+            e2 = _flat(captured)
             e2.pop('__comp_outer__', None)
             for i_, d_ in enumerate(defaults):
                 e2[params[len(params) - len(defaults) + i_]] = d_
@@ -1921,8 +1986,8 @@ def ev(n, env, funcs=None):
         v_ = ev(n.value, env, funcs)
         e_ = env
         e_[n.target.id] = v_
-        while '__comp_outer__' in e_:          # inside a comprehension the name is bound in the enclosing function
-            e_ = e_['__comp_outer__']
+        while dict.__contains__(e_, '__comp_outer__'):          # inside a comprehension the name is bound in the enclosing function
+            e_ = dict.__getitem__(e_, '__comp_outer__')
             e_[n.target.id] = v_
         return v_
     if isinstance(n, ast.Slice):
@@ -1978,7 +2043,7 @@ def _iterable(it, node):
 def _comprehend(n, env, funcs, emit):
     """run the for / if clauses of a comprehension.  As in Python, the comprehension has ONE scope of its own (a function created
     inside it sees the last value its loop variables took); the first iterable is evaluated in the enclosing scope."""
-    scope = dict(env)
+    scope = _flat(env)
     scope['__comp_outer__'] = env
 
     def gen(k):
@@ -2117,9 +2182,28 @@ def run_block(stmts, env, funcs=None, limit=10000):
                     return r2
         elif isinstance(s, ast.Delete):
             for t in s.targets:
+                if isinstance(t, ast.Name):
+                    if dict.__contains__(env, t.id):
+                        dict.__delitem__(env, t.id)
+                        continue
+                    raise Raised('UnboundLocalError' if t.id in env else 'NameError', t.id)
+                if isinstance(t, ast.Attribute):
+                    base = ev(t.value, env, funcs)
+                    if isinstance(base, Obj):
+                        an_ = _mangled(t.attr, env)
+                        if an_ not in base.fields:
+                            raise AttributeError(t.attr)
+                        del base.fields[an_]
+                        continue
                 if isinstance(t, ast.Subscript):
                     base = ev(t.value, env, funcs)
                     key = ev(t.slice, env, funcs)
+                    if isinstance(base, Obj) and '__delitem__' in base.methods:
+                        base.call('__delitem__', key)
+                        continue
+                    if _is_std_container(base) and not isinstance(base, tuple):
+                        del base[key]
+                        continue
                     if isinstance(base, dict):
                         if key not in base:
                             raise KeyError(key)
@@ -2200,9 +2284,59 @@ def run_block(stmts, env, funcs=None, limit=10000):
                     env[al.asname or al.name] = getattr(pure_module(s.module), al.name)
         elif isinstance(s, ast.AnnAssign) and s.value is not None:
             _bind(s.target, ev(s.value, env, funcs), env, funcs)
+        elif isinstance(s, ast.AnnAssign):
+            pass                               # a bare annotation (x: float) binds nothing
         else:
             raise Unsupported('statement %s' % type(s).__name__)
     return ('fall', None)
+
+
+class _Scope(dict):
+    """the frame of a nested function: its own names, and behind them the LIVE frame it was defined in (free names are read there at
+    the time of use; names declared nonlocal are written there), as Python's cells do"""
+
+    def __init__(self, parent, nonlocals=()):
+        dict.__init__(self)
+        self.parent = parent
+        self.nonlocals = frozenset(nonlocals)
+
+    def __contains__(self, k):
+        return dict.__contains__(self, k) or k in self.parent
+
+    def __getitem__(self, k):
+        if dict.__contains__(self, k):
+            return dict.__getitem__(self, k)
+        return self.parent[k]
+
+    def get(self, k, default=None):
+        if dict.__contains__(self, k):
+            return dict.__getitem__(self, k)
+        return self.parent.get(k, default)
+
+    def __setitem__(self, k, v):
+        if k in self.nonlocals:
+            self.parent[k] = v
+        else:
+            dict.__setitem__(self, k, v)
+
+    def setdefault(self, k, default=None):
+        if k in self:
+            return self[k]
+        self[k] = default
+        return default
+
+    def update(self, *a, **k):
+        for kk, vv in dict(*a, **k).items():
+            self[kk] = vv
+
+
+def _flat(env):
+    """a plain copy of a frame with everything visible from it"""
+    if isinstance(env, _Scope):
+        d = _flat(env.parent)
+        d.update(dict.items(env))
+        return d
+    return dict(env)
 
 
 def _closure(fdef, env, funcs):
@@ -2215,7 +2349,7 @@ def _closure(fdef, env, funcs):
     nonlocals = [nm for st in ast.walk(fdef) if isinstance(st, ast.Nonlocal) for nm in st.names]
 
     def call(*args, **kwargs):
-        e2 = dict(env)
+        e2 = _Scope(env, nonlocals)
         own = set()
         for i_, d_ in enumerate(defaults):
             e2[params[len(params) - len(defaults) + i_]] = d_
@@ -2244,16 +2378,11 @@ def _closure(fdef, env, funcs):
         if missing:
             raise TypeError('%s() missing required arguments: %s' % (fdef.name, missing))
         body = fdef.body
-        e2.pop('__comp_outer__', None)
-
-        def write_back():
-            for nm in nonlocals:
-                if nm in e2:
-                    env[nm] = e2[nm]
+        dict.__setitem__(e2, '__comp_outer__', None)          # (a walrus in this function binds here, not in a comprehension around its definition)
+        dict.pop(e2, '__comp_outer__')
         if _is_generator(fdef):
-            return _start_generator(body, e2, funcs, after=write_back)
+            return _start_generator(body, e2, funcs)
         kind, val = run_block(body, e2, funcs)
-        write_back()
         return val if kind == 'return' else None
     call.__name__ = fdef.name
     return call
@@ -2303,7 +2432,7 @@ def _bind(t, v, env, funcs=None):
     elif isinstance(t, (ast.Tuple, ast.List)):
         if isinstance(v, (str, range, set, frozenset, dict)) or (hasattr(v, '__iter__') and not isinstance(v, (list, tuple))):
             v = list(v)
-        elif isinstance(v, Obj) and ('__iter__' in v.methods or '__getitem__' in v.methods):
+        elif isinstance(v, Obj) and ('__iter__' in v.methods or '__getitem__' in v.methods or getattr(v, 'ntfields', None)):
             v = list(_iter(v))
         if not isinstance(v, (list, tuple)):
             raise TypeError('cannot unpack non-iterable %s object' % type(v).__name__)
@@ -2360,6 +2489,8 @@ def make_func(fn, funcs=None, self_obj=None):
     return _decorate(fn, call, funcs)
 
 
+_TAKES_ITERABLES = frozenset(('extend', 'update', 'join', 'union', 'intersection', 'difference', 'symmetric_difference', 'issubset', 'issuperset', 'isdisjoint',
+                              'intersection_update', 'difference_update', 'symmetric_difference_update', 'extendleft', 'fromkeys'))
 _PLAIN_DECORATORS = ('staticmethod', 'classmethod', 'property', 'abstractmethod', 'cached_property')
 
 
